@@ -137,6 +137,8 @@ def _pure_arg(e: ast.AST) -> bool:
         return True
     if isinstance(e, ast.Attribute):
         return _pure_arg(e.value)
+    if isinstance(e, ast.Subscript) and isinstance(e.slice, ast.Constant) and isinstance(e.slice.value, str) and ast.unparse(e.value) in ("op", "opmap", "dis.opmap"):
+        return True  # op["ROT_TWO"]: a lookup in the opcode table, the same value whenever it is evaluated
     if isinstance(e, ast.BinOp) and isinstance(e.op, (ast.Add, ast.Sub, ast.Mult)) and _pure_arg(e.left) and _pure_arg(e.right) \
             and (isinstance(e.left, ast.Constant) or isinstance(e.right, ast.Constant)):
         return True  # depth + 1
